@@ -1,7 +1,9 @@
 -- Root of the JRV library: models, driver, generated facts, property theorems.
 import JRV.Model.Json
 import JRV.Model.Client
+import JRV.Model.Backend
 import JRV.Model.Payload
 import JRV.Generated
 import JRV.Driver
 import JRV.Properties.C06
+import JRV.Properties.C14
